@@ -27,7 +27,7 @@ def scen(rng, tier, n):
     out = []
     for i in range(n):
         mode = rng.choice(["conc", "conc", "seq"])
-        tr = rng.choice(["tcp", "tcp", "unix"])
+        tr = rng.choice(["tcp", "tcp", "unix", "both", "both"])
         nc = rng.choice([0, 1, 2, 3, 5, 8, 13, 20, 40] + ([80, 200] if tier == "thorough" else []))
         pat = rng.choice(["burst", "trickle", "mixed", "slow"])
         stop = rng.choice([1, 5, 20, 60, 150])
@@ -56,7 +56,7 @@ def extra(ctx):
     """histories with recorded traces; every trace must be accepted by the model"""
     rng, tier = ctx["rng"], ctx["tier"]
     lines = [l + " trace" for l in scen(rng, tier, 60 if tier == "quick" else 400)]
-    want = "served-exactly-once=1 replies=1 running=0 late=0"
+    want = "served-exactly-once=1 replies=1 running=0 late=0 badsock=0"
 
     def one(l):
         return l, core.run_impl(ctx["exe"], [l], timeout=120)
